@@ -109,7 +109,15 @@ pub fn jobs_for(prop: &str) -> Vec<Job> {
             v
         }
         "C15" | "C16" => wire_all(),
-        "C10" => seq_all(Focus::Snapshots, 1),
+        "C10" => {
+            let mut v = seq_all(Focus::Snapshots, 1);
+            // exhaustive small scope: every (chain length 0..8, base, snapshot position, class of v)
+            let n = crate::seq::snapgrid_cases().len() as u64;
+            for (name, b, e) in [("snapgrid-mem-lib", Backend::Memory, Entry::Lib), ("snapgrid-mem-http", Backend::Memory, Entry::Http), ("snapgrid-sqlite-lib", Backend::Sqlite, Entry::Lib), ("snapgrid-sqlite-http", Backend::Sqlite, Entry::Http)] {
+                v.push(Job { name: name.into(), kind: JobKind::SnapGrid { backend: b, entry: e }, quick: n, thorough: n });
+            }
+            v
+        }
         "C11" => {
             let mut v = seq_all(Focus::Snapshots, 1);
             v.extend(conc_all());
@@ -175,6 +183,7 @@ pub fn meta(prop: &str) -> Meta {
         "C13" => ("exploration", TWIN, None),
         "C15" | "C16" => ("exploration", WIRE, None),
         "C19" => ("exploration", COMPAT, None),
+        "C10" => ("exploration", "cases = seeded sequential symbolic histories with snapshot focus (as for the other sequential checks: 3-60 ops, 1-4 clients, adversarial id classes incl. other clients' ids, restarts), compared step by step with the window-rule model; PLUS an exhaustive enumeration of the small scope: chain length 0..8 x chain base nil/non-nil x existing snapshot (none or at each version) x requested v (nil, each version, chain base, fresh, another client's version) = 840 cases, each on 2 backends x 2 entry points (jobs snapgrid-*). A case is distinct by the hash of its (operation kind, argument class, outcome class) sequence and non-trivial when at least one AddVersion was accepted", None),
         _ => ("exploration", SEQ, None),
     };
     Meta {
